@@ -501,3 +501,12 @@ package fontscan
 //@   mode bv
 //@   ensures [fails-only-for-these-reasons] (result1 != nil) == (dirsFail("") || scanFail("") || indexInvalid("") || writeFail(""))
 //@   modifies unspecified
+//
+// Manually added faces (C14, "font resolution is total"): the aspect stored for them has no unset field, which is what
+// matchStyle/matchStretch/matchWeight assume of every candidate.
+//@ func newFootprintFromFont C14
+//@   mode bv
+//@   requires [font] f != nil
+//@   ensures [aspect-set] result.Aspect.Style != 0 && result.Aspect.Stretch != 0 && result.Aspect.Weight != 0
+//@   ensures [user-provided] result.isUserProvided
+//@   modifies unspecified
